@@ -424,6 +424,8 @@ impl<T> TooDee<T> {
         }
         let mut data = Vec::new();
         data.resize_with(num_cols.checked_mul(num_rows).unwrap(), T::default);
+        #[cfg(toodee_verif)]
+        verif_trace::line("new", [num_cols, num_rows, 0], [0, 0, 0], [num_cols, num_rows, data.len()], false);
         TooDee { data, num_cols, num_rows }
     }
 
@@ -453,6 +455,8 @@ impl<T> TooDee<T> {
         }
         let len = num_rows.checked_mul(num_cols).unwrap();
         let v = vec![init_value; len];
+        #[cfg(toodee_verif)]
+        verif_trace::line("init", [num_cols, num_rows, 0], [0, 0, 0], [num_cols, num_rows, v.len()], false);
         TooDee {
             data : v,
             num_cols,
@@ -560,6 +564,8 @@ impl<T> TooDee<T> {
             assert_eq!(num_rows, num_cols);
         }
         assert_eq!(num_cols.checked_mul(num_rows).unwrap(), v.len());
+        #[cfg(toodee_verif)]
+        verif_trace::line("from_vec", [num_cols, num_rows, v.len()], [0, 0, 0], [num_cols, num_rows, v.len()], false);
         TooDee {
             data : v,
             num_cols,
@@ -629,6 +635,8 @@ impl<T> TooDee<T> {
     /// assert!(toodee.capacity() >= 10);
     /// ```
     pub fn clear(&mut self) {
+        #[cfg(toodee_verif)]
+        let _vt = verif_trace::Guard::new("clear", [0, 0, 0], self as *const Self);
         self.num_cols = 0;
         self.num_rows = 0;
         self.data.clear();
@@ -674,6 +682,8 @@ impl<T> TooDee<T> {
     {
         assert!(index <= self.num_rows);
         let mut iter = data.into_iter();
+        #[cfg(toodee_verif)]
+        let _vt = verif_trace::Guard::new("insert_row", [index, 0, 0], self as *const Self);
         // The new dimensions live in locals and are only committed at the very end, so that a panic in
         // caller-supplied code (`iter.len()`, `iter.next()`) or in `reserve` never leaves `num_cols` /
         // `num_rows` disagreeing with the vector's length.
@@ -758,6 +768,8 @@ impl<T> TooDee<T> {
     {
         assert!(index < self.num_rows);
         let start = index * self.num_cols;
+        #[cfg(toodee_verif)]
+        let _vt = verif_trace::Guard::new("remove_row", [index, 0, 0], self as *const Self);
         // Move the row to the end first, so that the `Drain` covers the tail of the vector. `Vec::drain`
         // truncates the vector up front and restores the part behind the drained range only in its
         // destructor; if the drain is leaked (`mem::forget`) the vector is then left holding exactly
@@ -826,6 +838,8 @@ impl<T> TooDee<T> {
         assert!(index < self.num_cols);
 
         let num_cols = self.num_cols;
+        #[cfg(toodee_verif)]
+        let _vt = verif_trace::Guard::new("remove_col", [index, 0, 0], self as *const Self);
         let num_rows = self.num_rows;
         let slice_len = self.data.len() - num_cols + 1;
         unsafe {
@@ -859,6 +873,8 @@ impl<T> TooDee<T> {
         assert!(index <= self.num_cols);
         // Use the reverse iterator
         let mut rev_iter = data.into_iter().rev();
+        #[cfg(toodee_verif)]
+        let _vt = verif_trace::Guard::new("insert_col", [index, 0, 0], self as *const Self);
         // As in `insert_row`, the new dimensions are kept in locals until the very end so that a panic
         // in caller-supplied code or in `reserve` cannot leave them inconsistent with the vector.
         let num_cols = self.num_cols;
@@ -935,6 +951,8 @@ impl<T> TooDee<T> {
 
     /// Switches the values for `num_cols` and `num_rows` _without_ transposing the underlying data.
     pub fn swap_dimensions(&mut self) {
+        #[cfg(toodee_verif)]
+        let _vt = verif_trace::Guard::new("swap_dimensions", [0, 0, 0], self as *const Self);
         mem::swap(&mut self.num_cols, &mut self.num_rows);
     }
 }
@@ -1085,6 +1103,8 @@ impl<T> ExactSizeIterator for DrainCol<'_, T> { }
 impl<T> Drop for DrainCol<'_, T> {
 
     fn drop(&mut self) {
+        #[cfg(toodee_verif)]
+        let _vt = verif_trace::Guard::new("drain_col_drop", [self.col, self.num_cols, self.num_rows], self.toodee.as_ptr() as *const TooDee<T>);
         /// Continues dropping the remaining elements in the `DrainCol`, then repositions the
         /// un-`Drain`ed elements to restore the original `TooDee`.
         struct DropGuard<'r, 'a, T>(&'r mut DrainCol<'a, T>);
@@ -1139,3 +1159,53 @@ impl<T> Drop for DrainCol<'_, T> {
     }
 }
 
+
+/// Verification hook, compiled only with `--cfg toodee_verif` (never in normal builds): logs one
+/// JSON line per dimension-changing call of `TooDee` - operation, scalar arguments, and
+/// `[num_cols, num_rows, data.len()]` before and after - to the directory named by the environment
+/// variable `TOODEE_VERIF_TRACE` (one file per thread), if it is set. The line is written when the
+/// call returns or unwinds, so every intermediate state the test-suite produces can be checked
+/// against the dimension-level specification.
+#[cfg(toodee_verif)]
+pub(crate) mod verif_trace {
+    extern crate std;
+    use std::io::Write;
+    use std::string::String;
+    use std::format;
+    use super::TooDee;
+
+    pub(crate) struct Guard<T> {
+        op: &'static str,
+        a: [usize; 3],
+        pre: [usize; 3],
+        target: *const TooDee<T>,
+    }
+
+    fn dims<T>(t: *const TooDee<T>) -> [usize; 3] {
+        // only plain field reads; the array may be in a transient state but the fields are always initialised
+        unsafe { [(*t).num_cols, (*t).num_rows, (*t).data.len()] }
+    }
+
+    pub(crate) fn line(op: &str, a: [usize; 3], pre: [usize; 3], post: [usize; 3], panicked: bool) {
+        let dir = match std::env::var("TOODEE_VERIF_TRACE") { Ok(d) => d, Err(_) => return };
+        let tid = format!("{:?}", std::thread::current().id());
+        let tid: String = tid.chars().filter(|c| c.is_ascii_digit()).collect();
+        let path = format!("{}/t{}.ndjson", dir, tid);
+        if let Ok(mut f) = std::fs::OpenOptions::new().create(true).append(true).open(path) {
+            let _ = writeln!(f, "{{\"op\":\"{}\",\"a\":[{},{},{}],\"pre\":[{},{},{}],\"post\":[{},{},{}],\"panicked\":{}}}",
+                op, a[0], a[1], a[2], pre[0], pre[1], pre[2], post[0], post[1], post[2], panicked);
+        }
+    }
+
+    impl<T> Guard<T> {
+        pub(crate) fn new(op: &'static str, a: [usize; 3], target: *const TooDee<T>) -> Guard<T> {
+            Guard { op, a, pre: dims(target), target }
+        }
+    }
+
+    impl<T> Drop for Guard<T> {
+        fn drop(&mut self) {
+            line(self.op, self.a, self.pre, dims(self.target), std::thread::panicking());
+        }
+    }
+}
